@@ -38,6 +38,8 @@ type fakeADS struct {
 	streams           []*fakeStream
 	failCreate        int // the next n stream creations fail
 	createAttempts    int
+	onCreate          func() // called (once) when the next stream is being created
+	sendDelay         time.Duration
 	log               []sentReq
 }
 
@@ -56,23 +58,33 @@ type fakeStream struct {
 
 func (a *fakeADS) StreamAggregatedResources(ctx context.Context, callOptions ...callopt.Option) (manager.ADSStream, error) {
 	a.mu.Lock()
-	defer a.mu.Unlock()
 	a.createAttempts++
 	if a.failCreate > 0 {
 		a.failCreate--
+		a.mu.Unlock()
 		return nil, errors.New("verif: stream creation failed")
 	}
 	s := &fakeStream{ads: a, id: len(a.streams) + 1}
 	a.streams = append(a.streams, s)
+	f := a.onCreate
+	a.onCreate = nil
+	a.mu.Unlock()
+	if f != nil {
+		f() // synchronously: what it releases is runnable before the creator goes on
+	}
 	return s, nil
 }
 
 func (s *fakeStream) Send(req *discoveryv3.DiscoveryRequest) error {
 	s.ads.mu.Lock()
 	g := s.sendGate
+	d := s.ads.sendDelay
 	s.ads.mu.Unlock()
 	if g != nil {
 		<-g
+	}
+	if d > 0 {
+		time.Sleep(d) // a slow transport: the sender takes the queued requests one by one, with pauses
 	}
 	s.ads.mu.Lock()
 	defer s.ads.mu.Unlock()
